@@ -76,7 +76,7 @@ func (x *Exec) explore(entry *ssa.Function) {
 		x.rangeSite, x.rangeCount = -1, 0
 		x.frames = x.frames[:0]
 		x.owned = true
-		nvars = 0
+		x.nvars = 0
 		func() {
 			defer func() {
 				if r := recover(); r != nil {
